@@ -135,3 +135,88 @@ Proof.
   split; [reflexivity|]. split; [now apply canon_number_wf|]. split; [apply canon_number_value|].
   unfold canon_number, with_frac. destruct (n_exp n) as [[es ed]|] eqn:Ee, (n_frac n); simpl; auto.
 Qed.
+
+(* ---- which spellings share a name: exactly those with the same canonical number ---- *)
+(* reading a spelling back (reference reading, left inverse of spell . 0 Me) *)
+Definition read (s : string) : number :=
+  let (ip, t) := span_digits (strip_sign s) in
+  let '(fr, t2) := match t with
+                   | String "." r => let (f, e) := span_digits r in (Some f, e)
+                   | _ => (None, t)
+                   end in
+  mkNumber (sign_of s) ip fr
+    (match t2 with
+     | String c r => if is_marker c then Some (sign_of r, strip_sign r) else None
+     | EmptyString => None
+     end).
+
+Lemma read_spell n : wf_number n = true -> read (spell n 0 Me) = n.
+Proof.
+  destruct n as [sg ip fr ex]. unfold wf_number, spell, frac_str, exp_str, frac_digits.
+  cbn [n_sign n_int n_frac n_exp marker_str]. change (zeros 0) with "".
+  intros W. repeat (apply andb_true_iff in W; destruct W as [W ?]).
+  rename H into Hexp, H0 into Hdig, H1 into Hfd, H2 into Hid. rename W into Hsg.
+  (* the exponent part *)
+  set (E := match ex with Some (es, ed) => "e" ++ es ++ ed | None => "" end).
+  assert (HE : nd_head E = true /\ ns_head E = true /\
+               match E with String "."%char _ => False | _ => True end /\
+               match E with
+               | String c r => if is_marker c then Some (sign_of r, strip_sign r) else None
+               | EmptyString => None
+               end = ex).
+  { unfold E. destruct ex as [[es ed]|]; [|repeat split; reflexivity].
+    apply andb_true_iff in Hexp. destruct Hexp as [Hexp Hed].
+    apply andb_true_iff in Hexp. destruct Hexp as [Hes Hne].
+    assert (Hnsd : ns_head ed = true).
+    { rewrite <- (sapp_nil_r ed). apply ns_head_digits_app; auto. }
+    repeat split; try reflexivity. simpl.
+    now rewrite (sign_of_app _ _ Hes Hnsd), (strip_sign_app _ _ Hes Hnsd). }
+  destruct HE as [HE1 [HE2 [HE3 HE4]]].
+  unfold read.
+  destruct fr as [f|].
+  - assert (Hns : ns_head (ip ++ ("." ++ f ++ "") ++ E) = true) by (apply ns_head_digits_app; auto).
+    rewrite (strip_sign_app _ _ Hsg Hns), (sign_of_app _ _ Hsg Hns).
+    rewrite (span_digits_app ip (("." ++ f ++ "") ++ E) Hid eq_refl).
+    change (("." ++ f ++ "") ++ E) with (String "." ((f ++ "") ++ E)). cbv iota beta.
+    rewrite sapp_nil_r, (span_digits_app f E Hfd HE1). now rewrite HE4.
+  - simpl in Hdig. rewrite orb_false_r in Hdig.
+    assert (Hns : ns_head (ip ++ "" ++ E) = true) by (apply ns_head_digits_app; auto).
+    rewrite (strip_sign_app _ _ Hsg Hns), (sign_of_app _ _ Hsg Hns).
+    change ("" ++ E) with E. rewrite (span_digits_app ip E Hid HE1).
+    destruct E as [|c r]; [now rewrite <- HE4|].
+    destruct (Ascii.eqb c ".") eqn:Ec.
+    + apply Ascii.eqb_eq in Ec. subst c. now elim HE3.
+    + replace (match String c r with String "."%char r0 => let (f, e) := span_digits r0 in (Some f, e)
+               | _ => (None, String c r) end) with (@None string, String c r)
+        by (destruct c as [[] [] [] [] [] [] [] []]; try reflexivity; discriminate Ec).
+      now rewrite HE4.
+Qed.
+
+Lemma spell_injective n1 n2 : wf_number n1 = true -> wf_number n2 = true ->
+  spell n1 0 Me = spell n2 0 Me -> n1 = n2.
+Proof. intros W1 W2 H. rewrite <- (read_spell n1 W1), <- (read_spell n2 W2), H. reflexivity. Qed.
+
+(* two spellings get the same normalised string iff they spell the same
+   canonical number: same sign string, same integer digits, same fraction up to
+   final zeros, same exponent string *)
+Theorem same_name_iff n1 p1 m1 n2 p2 m2 :
+  wf_number n1 = true -> marker_ok n1 m1 = true -> wf_number n2 = true -> marker_ok n2 m2 = true ->
+  (normalize_float (spell n1 p1 m1) = normalize_float (spell n2 p2 m2) <->
+   canon_number n1 = canon_number n2).
+Proof.
+  intros W1 M1 W2 M2. rewrite (norm_spell n1 p1 m1 W1 M1), (norm_spell n2 p2 m2 W2 M2).
+  rewrite !normal_form_is_spelling. split.
+  - intros H. inversion H as [H']. apply spell_injective; auto using canon_number_wf.
+  - now intros ->.
+Qed.
+
+(* float-free: numerically different densities never share a name *)
+Theorem different_values_different_names n1 p1 m1 n2 p2 m2 :
+  wf_number n1 = true -> marker_ok n1 m1 = true -> wf_number n2 = true -> marker_ok n2 m2 = true ->
+  ~ number_value n1 == number_value n2 ->
+  normalize_float (spell n1 p1 m1) <> normalize_float (spell n2 p2 m2).
+Proof.
+  intros W1 M1 W2 M2 Hv H. apply Hv.
+  apply (same_name_iff n1 p1 m1 n2 p2 m2 W1 M1 W2 M2) in H.
+  rewrite <- (canon_number_value n1), <- (canon_number_value n2), H. reflexivity.
+Qed.
